@@ -276,6 +276,7 @@ class Ctx:
         self.exhaustive = None
         self.extra = {}
         self.t0 = time.time()
+        self.deadline = None   # set by the worker: end of the shrink phase
         h = hashlib.sha256(("%d:%s:%s:%d" % (seed, prop, sub, shard)).encode())
         self.unit_seed = int(h.hexdigest()[:12], 16)
 
@@ -323,8 +324,31 @@ class Ctx:
             if m is None:
                 self.mism[sig] = {"count": 1, "idx": idx, "case": case,
                                   "detail": detail, "clause": clause}
+                self.flush_partial()
             else:
                 m["count"] += 1
+
+    def flush_partial(self):
+        """A unit that is killed at its time limit must not take the failures
+        it has already seen with it: every new signature is written out at
+        once (unshrunk replay + partial result the runner reads after a
+        timeout)."""
+        path = getattr(self, "partial_path", None)
+        if not path:
+            return
+        vio = []
+        for s, m in sorted(self.mism.items()):
+            rp = m.get("replay") or m.get("raw_replay")
+            if rp is None:
+                rp = m["raw_replay"] = write_replay(
+                    self, s, m["clause"], m["case"], m["detail"])
+            vio.append({"signature": s, "count": m["count"],
+                        "detail": m["detail"], "replay": rp})
+        tmp = path + ".tmp"
+        with open(tmp, "w") as fh:
+            json.dump({"violations": vio,
+                       "evaluations": self.evaluations}, fh)
+        os.rename(tmp, path)
 
     def result(self):
         return {
@@ -398,13 +422,26 @@ def run_cases(ctx, strategy, oracle, n, regions=None, shrink_budget=None):
 
     collect()
 
-    for sig, m in sorted(ctx.mism.items()):
-        if m.get("replay"):
+    todo = [(sig, m) for sig, m in sorted(ctx.mism.items())
+            if not m.get("replay")]
+    for k, (sig, m) in enumerate(todo):
+        now = time.time()
+        if ctx.deadline is not None and now >= ctx.deadline:
+            # no time left: the failing case as generated is the replay
+            m["replay"] = write_replay(ctx, sig, m["clause"], m["case"],
+                                       m["detail"])
+            ctx.extra["unshrunk_for_lack_of_time"] = ctx.extra.get(
+                "unshrunk_for_lack_of_time", 0) + 1
             continue
-        _shrink_one(ctx, strategy, oracle, regions, sig, m, shrink_budget)
+        # an equal share of the remaining time for every open signature
+        t_end = None if ctx.deadline is None else \
+            now + (ctx.deadline - now) / (len(todo) - k)
+        _shrink_one(ctx, strategy, oracle, regions, sig, m, shrink_budget,
+                    t_end)
 
 
-def _shrink_one(ctx, strategy, oracle, regions, sig, m, shrink_budget):
+def _shrink_one(ctx, strategy, oracle, regions, sig, m, shrink_budget,
+                t_end=None):
     clause = m["clause"]
     best = {"case": m["case"], "detail": m["detail"], "calls": 0,
             "hash": case_hash(m["case"])}
@@ -422,7 +459,8 @@ def _shrink_one(ctx, strategy, oracle, regions, sig, m, shrink_budget):
     @given(strategy)
     def hunt(case):
         best["calls"] += 1
-        if best["calls"] > limit + shrink_budget:
+        if best["calls"] > limit + shrink_budget or (
+                t_end is not None and time.time() > t_end):
             # budget used up: freeze on the best case found so far
             if case_hash(case) == best["hash"]:
                 raise _Found()
